@@ -49,7 +49,7 @@ class HandlerRun:
     def __init__(self, ir, loop_bound=8, max_paths=20000, budget_s=240):
         self.ir = ir
         self.ex = Exec(ir, loop_bound=loop_bound, max_paths=max_paths)
-        self.ex.deadline = time.time() + budget_s
+        self.ex.deadline = time.process_time() + budget_s
         lib.install(self.ex, *lib.ALL)
         self.RS = ir.typeid(M + '.RuntimeState'); self.REQ = ir.typeid('net/http.Request')
         self.LW = ir.typeid('*' + KM + '/lib/instrumentedwriter.LoggingWriter')
